@@ -18,7 +18,7 @@ func C09(c *Ctx) {
 	r := c.R
 	r.Explain = "Decided statically: (R1) in node.processMessage every call that can reach a durable write, a board post or an FSM event (resolved through the VTA call graph) lies behind the success edge of verifyMessage(fsmInstance, message) or the equal edge of message.Event == event_sig_proposal_init; ProcessMessage diverts only message.Event == reinit_dkg to reinitDKG; " +
 		"(R2) verifyMessage returns nil only via the skip switch or the true edge of ed25519.Verify(key, message.Bytes(), message.Signature) with key = GetPubKeyByUsername(message.SenderAddr) of the same instance; the key lookup fails for unknown/empty names; registered keys are written only by the opening proposal and the reinit key update; " +
-		"(R3) the skip switch is written only by its setter, called from the daemon flag and from reinitDKG where `true` is paired with a deferred `false` on every exit; (R4) what the node persists before verification is recorded. " +
+		"(R3) the skip switch is written only by its setter, called from the daemon flag and from reinitDKG where `true` is paired with a deferred `false` on every exit; (R4) a persisting call that precedes verification (the round lookup, if it creates and stores a round) is recorded as an observation and decided under C18/R2. " +
 		"NOT decided: ed25519 itself; the per-byte mutation quantifier (execution)."
 	r.Trusted = []string{"crypto/ed25519.Verify", "VTA call graph (x/tools v0.29.0) for effect reachability", "go/ssa"}
 	r.Rule("C09/R1", "every effect in processMessage is dominated by verification success or the opening-proposal exemption", 6)
@@ -131,7 +131,10 @@ func c09Effects(c *Ctx) {
 			r.Check(len(re) > 0 && !ssax.ReachableAvoiding(pm, call, re, nil), "C09/R1", sprintf("node.ProcessMessage->reinitDKG#%d", i+1), "the unverified reinit path is taken only for message.Event == reinit_dkg", c.PosOf(call),
 				"reinitDKG reachable for other events")
 		}
-		puts := ssax.Calls(pm, false, func(ci ssa.CallInstruction) bool { o := ssax.CalleeObj(ci); return o != nil && o.Name() == "PutOperation" })
+		puts := ssax.Calls(pm, false, func(ci ssa.CallInstruction) bool {
+			o := ssax.CalleeObj(ci)
+			return o != nil && o.Name() == "PutOperation"
+		})
 		pcs := ssax.CallsTo(pm, load.Module+"/"+pkgNode+".(BaseNodeService).processMessage")
 		ok := len(puts) == 1 && len(pcs) == 1
 		if ok {
@@ -186,7 +189,10 @@ func c09Verify(c *Ctx) {
 	r.Check(strings.HasSuffix(msgP, "message.Bytes()") || msgP == "message.Bytes()", "C09/R2", "node.verifyMessage:signed-bytes", "the bytes verified are message.Bytes()", c.PosOf(vf), "message argument is "+msgP)
 	r.Check(sigP == "message.Signature", "C09/R2", "node.verifyMessage:signature", "the signature verified is message.Signature", c.PosOf(vf), "signature argument is "+sigP)
 	// the key lookup's error edge returns
-	for _, lk := range ssax.Calls(fn, false, func(ci ssa.CallInstruction) bool { o := ssax.CalleeObj(ci); return o != nil && o.Name() == "GetPubKeyByUsername" }) {
+	for _, lk := range ssax.Calls(fn, false, func(ci ssa.CallInstruction) bool {
+		o := ssax.CalleeObj(ci)
+		return o != nil && o.Name() == "GetPubKeyByUsername"
+	}) {
 		ne := ssax.NilErrEdgesOfCall(fn, lk)
 		r.Check(len(ne) > 0 && !ssax.ReachableAvoiding(fn, vf, ne, nil), "C09/R2", "node.verifyMessage:key-lookup-checked", "an unknown sender is rejected before Verify", c.PosOf(lk), "ed25519.Verify reachable although the key lookup failed")
 	}
